@@ -182,6 +182,22 @@ pub fn run(ctx: &mut Ctx) {
                 (receiver = the inner C) and on `Impl<App>` with a hand-written `impl TheTrait for App`; results and one-entry traces must agree; probes: C, Impl<C>, Impl<App> implement \
                 the trait, an unrelated X and Impl<X> do not; non-trivial = non-ident shape, explicit lifetime, async or >=1 argument; distinct = distinct program text"
         .into();
+    {
+        let head = "#![allow(warnings)]\npub struct Holder<T> { pub t: T }\npub struct Config<'a> { pub s: &'a str }\npub fn run() -> Vec<String> { vec![] }\n";
+        let mk = |item: &str| (format!("{head}#[::entrait::entrait(TheTrait)]\n{item}\n"), format!("{head}{item}\n"));
+        let (r1, t1) = mk("async fn the_fn<T: Sync>(h: &Holder<T>) -> &T { &h.t }");
+        let (r2, t2) = mk("fn the_fn<'a>(c: &Config<'a>) -> &'a str { c.s }");
+        if !super::common::probe_open_findings(
+            ctx,
+            "C05",
+            &[
+                ("async-elided-borrow-of-generic-concrete-deps", r1, t1, &["E0311", "E0309", "may not live long enough"]),
+                ("fn-lifetime-in-concrete-deps-type", r2, t2, &["E0261"]),
+            ],
+        ) {
+            return;
+        }
+    }
     let n = ctx.n(1000, 10000) as usize;
     for feature_unimock in [false, true] {
         let tapes = crate::drive::gen_tapes(ctx.seed, 500 + feature_unimock as u64, n / 2, TAPE_LEN);
